@@ -34,7 +34,7 @@ CIS = {"tpr_ci": ("tp", "p"), "tnr_ci": ("tn", "n"), "fpr_ci": ("fp", "n"), "fnr
 CI_ALIASES = {"tar_ci": "tpr_ci", "frr_ci": "fnr_ci", "trr_ci": "tnr_ci", "far_ci": "fpr_ci"}
 COMPLEMENTS = [("tpr", "fnr"), ("tnr", "fpr"), ("ppv", "fdr"), ("npv", "for_"), ("topr", "tonr"),
                ("accuracy", "error_rate")]
-ALPHAS = [1e-12, 1e-9, 0.01, 0.05, 0.3, 0.9]
+ALPHAS = [1e-12, 1e-9, 0.01, 0.05, 0.3, 0.9, 0.999999]
 SHAPES = [(1,), (3,), (0,), (2, 2), (2, 0, 3), (4, 2, 3)]
 
 
